@@ -63,7 +63,7 @@ def main():
                 rc, o = sh("bash ./demo.sh %s" % wt, cwd=d, timeout=900)
                 res["demo_on_changed_tree"] = "fails (exit %d)" % rc if rc != 0 else "PASSES (change no longer manifests)"
             os.makedirs(out, exist_ok=True)
-            rc, o = sh("./check %s --tier quick" % prop, cwd=VERIF, timeout=3000,
+            rc, o = sh("./check %s --tier quick" % prop, cwd=VERIF, timeout=6000,
                        env={"VERIF_REPO": wt, "VERIF_OUT": out, "VERIF_MUTANT": "1", "VERIF_JOBS": os.environ.get("VERIF_JOBS", "10")})
             viol = [l for l in o.splitlines() if l.startswith("VIOLATION")]
             res["check_exit"] = rc
